@@ -29,6 +29,9 @@ def run(repo, res, tier):
     langrules.rule_tb8(repo, res, an)
     langrules.rule_kw_excl(repo, res, an)
     langrules.rule_dash(repo, res, an)
+    langrules.rule_fold(repo, res, an)
+    effects.rule_shared_class_state(repo, res)
+    effects.rule_memo(repo, res)
     langrules.rule_lex1(repo, res, an)
     langrules.rule_q1(repo, res, an)
     langrules.rule_n1(repo, res, an)
